@@ -346,16 +346,20 @@ class Check:
         return 1 if self.violations else 0
 
 
-def block_range(path, idx, starts=('{"ev":"begin"',), ends=('{"ev":"begin"', '{"ev":"msg"')):
+def has_ev(line, names):
+    return any(('"ev":"%s"' % n) in line for n in names)
+
+
+def block_range(path, idx, starts=("begin",), ends=("begin", "msg")):
     """line range [a, b] of the run containing line idx: from the nearest preceding `begin`
     to the line before the next `begin`/`msg`"""
     a = None
     b = None
     with open(path, errors="replace") as f:
         for i, line in enumerate(f, 1):
-            if i <= idx and line.startswith(starts):
+            if i <= idx and has_ev(line, starts):
                 a = i
-            if i > idx and line.startswith(ends):
+            if i > idx and has_ev(line, ends):
                 b = i - 1
                 break
         else:
@@ -373,7 +377,7 @@ def drop_range(path, a, b, out):
 
 
 def validate_with_retries(chk, name, module, trace_path, side_path, constants=None, max_reports=3, describe=None,
-                          known_filter=None, timeout=3600, drop_runs=False):
+                          known_filter=None, timeout=3600, drop_runs=False, block=(("begin",), ("begin", "msg"))):
     """Validate a trace; on rejection record the violation (with the side-car replay data of the
     rejected event), drop the event and continue so that the rest of the trace is checked too."""
     cur_trace, cur_side = trace_path, side_path
@@ -410,7 +414,7 @@ def validate_with_retries(chk, name, module, trace_path, side_path, constants=No
             chk.notes.append("stopped validating %s after %d rejected events" % (os.path.basename(trace_path), reports))
             break
         nt, ns = cur_trace + ".next", (cur_side + ".next") if cur_side else None
-        a, b = block_range(cur_trace, idx) if drop_runs else (idx, idx)
+        a, b = block_range(cur_trace, idx, block[0], block[1]) if drop_runs else (idx, idx)
         drop_range(cur_trace, a, b, nt)
         if cur_side and os.path.exists(cur_side):
             drop_range(cur_side, a, b, ns)
